@@ -191,7 +191,24 @@ fn ree_probe() {
     }
 }
 
+fn json_dict_probe() {
+    use arrow_array::types::Int8Type;
+    // keys all valid, the dictionary VALUE 1 is null: rows "a", null
+    let values = StringArray::from(vec![Some("a"), None]);
+    let d = DictionaryArray::<Int8Type>::try_new(Int8Array::from(vec![0i8, 1]), Arc::new(values)).unwrap();
+    let schema = Arc::new(Schema::new(vec![Field::new("d", d.data_type().clone(), true)]));
+    let batch = RecordBatch::try_new(schema, vec![Arc::new(d)]).unwrap();
+    let mut out = Vec::new();
+    {
+        let mut w = arrow_json::WriterBuilder::new().with_explicit_nulls(true).build::<_, arrow_json::writer::LineDelimited>(&mut out);
+        w.write(&batch).unwrap();
+        w.finish().unwrap();
+    }
+    println!("json dictionary null value: in {:?} text {:?}", vcore::tok::batch_rows(&batch), String::from_utf8_lossy(&out));
+}
+
 pub fn run() {
+    json_dict_probe();
     ree_probe();
     dict_probe();
     findings_probe();
